@@ -3,7 +3,13 @@
 One case = one generated grammar (rule `Model`, optionally a contained rule `Sub`)
 whose bodies assign a few attributes several times under nested sequence /
 ordered choice / optional / repetition / unordered group, plus a few texts
-(derived from the grammar, some mutated).
+(derived from the grammar, some mutated).  Repetitions, unordered groups and
+list assignments carry repeat modifiers: a separator (string or regex match,
+mandatory or able to match nothing, so that written and left-out separators
+mix in one list; optionally followed by a keyword with the separator's text =
+a trailing separator) and `eolterm` (texts then have line breaks).  Values are
+base types, string matches, a user match rule and a contained rule; the two
+user rules take their names from a pool that contains `sep` and `list`.
 
 Implementation side (`impl`): `metamodel_from_str` -> inferred multiplicities
 (`cls._tx_attrs[a].mult`) or the grammar error; per text: the parse tree of the
@@ -27,6 +33,14 @@ SUB_ATTRS = ["x", "y"]
 FLAGS = ["f", "g", "h"]
 OPS = ["=", "?=", "*=", "+="]
 MANY = ("0..*", "1..*")
+
+SUB_NAMES = ["Sub", "Sub", "Sub", "Sub", "sep", "sep", "sep", "list", "Item"]
+VAL_NAMES = ["Val", "Val", "Val", "Val", "sep", "sep", "sep", "eolterm", "Elem"]
+# separators of repeat modifiers: s = the text written, re = a regex match, alt = a second text the regex
+# matches, opt = the regex also matches the empty string (the separator may be left out)
+SEPS = [({"s": ","}, 36), ({"s": "|"}, 8), ({"s": ",", "re": True}, 6), ({"s": ",", "re": True, "alt": ";"}, 8),
+        ({"s": ",", "re": True, "opt": True}, 24), ({"s": "|", "re": True, "opt": True}, 10),
+        ({"s": ",", "re": True, "alt": ";", "opt": True}, 8)]
 
 INT_VALUES = ["0", "0", "0", "1", "2", "7", "42", "-3"]
 FLOAT_VALUES = ["0.0", "0.0", "2.5", "1.0", "7.25"]
@@ -65,22 +79,59 @@ def normalize(n):
         xs = [normalize(x) for x in n["xs"]]
         if len(xs) == 1 and xs[0]["k"] in ("seq", "alt"):
             xs = xs[0]["xs"]
-        return {"k": "un", "xs": xs, "form": n.get("form", "seq")}
+        return {"k": "un", "xs": xs, "form": n.get("form", "seq"), "sep": sep_of(n)}
     if k == "opt":
         return {"k": "opt", "x": normalize(n["x"])}
     if k == "rep":
-        return {"k": "rep", "plus": n["plus"], "sep": bool(n.get("sep")), "x": normalize(n["x"])}
+        return {"k": "rep", "plus": n["plus"], "sep": sep_of(n), "eol": bool(n.get("eol")), "x": normalize(n["x"])}
     return dict(n)
 
 
-def render_rhs(a):
+def sep_of(n):
+    """The separator of the node's repeat modifiers: None or {"s", "re", "alt", "opt"} (`True` in older
+    corpus cases = the string match ',')."""
+    s = n.get("sep")
+    if not s:
+        return None
+    if s is True:
+        return {"s": ","}
+    return s
+
+
+def render_sep(sep):
+    def esc(t):
+        return "\\" + t if t in "|.?*+()[]" else t
+
+    if not sep.get("re"):
+        return "'" + sep["s"] + "'"
+    if sep.get("alt"):
+        pat = "[" + sep["s"] + sep["alt"] + "]"
+    elif sep.get("opt") and esc(sep["s"]) != sep["s"]:
+        pat = "(" + esc(sep["s"]) + ")"
+    else:
+        pat = esc(sep["s"])
+    return "/" + pat + ("?" if sep.get("opt") else "") + "/"
+
+
+def modifiers(n):
+    parts = []
+    sep = sep_of(n)
+    if sep:
+        parts.append(render_sep(sep))
+    if n.get("eol"):
+        # the modifiers may be written in any order
+        parts.insert(0 if n["eol"] == "first" else len(parts), "eolterm")
+    return "[" + " ".join(parts) + "]" if parts else ""
+
+
+def render_rhs(a, names=None):
     t = a["rhs"]
     if t.startswith("LIT:"):
         return "'" + t[4:] + "'"
-    return t
+    return (names or {}).get(t, t)
 
 
-def render(n, ctx="top"):
+def render(n, ctx="top", names=None):
     """ctx: top (rule body / inside parentheses), alt (alternative of a choice), seq (element of a
     sequence), post (operand of a postfix operator).  Nested sequences and choices are parenthesised so
     that the parser model textX builds has the shape of the AST."""
@@ -88,38 +139,56 @@ def render(n, ctx="top"):
     if k == "kw":
         return "'" + n["s"] + "'"
     if k == "asgn":
-        s = f"{n['a']}{n['op']}{render_rhs(n)}"
-        if n.get("sep") and n["op"] in ("*=", "+="):
-            s += "[',']"
+        s = f"{n['a']}{n['op']}{render_rhs(n, names)}"
+        mods = modifiers(n) if n["op"] in ("*=", "+=") else ""
+        if mods:
+            s += mods
             if ctx == "post":
                 s = f"({s})"
         return s
     if k == "seq":
-        s = " ".join(render(x, "seq") for x in n["xs"])
+        s = " ".join(render(x, "seq", names) for x in n["xs"])
         return f"({s})" if ctx in ("seq", "post") else s
     if k == "alt":
-        s = " | ".join(render(x, "alt") for x in n["xs"])
+        s = " | ".join(render(x, "alt", names) for x in n["xs"])
         return f"({s})" if ctx in ("alt", "seq", "post") else s
     if k == "opt":
-        s = render(n["x"], "post") + "?"
+        s = render(n["x"], "post", names) + "?"
     elif k == "rep":
-        s = render(n["x"], "post") + ("+" if n["plus"] else "*") + ("[',']" if n.get("sep") else "")
+        s = render(n["x"], "post", names) + ("+" if n["plus"] else "*") + modifiers(n)
     elif k == "un":
         if n.get("form") == "alt" and len(n["xs"]) > 1:
-            inner = " | ".join(render(x, "alt") for x in n["xs"])
+            inner = " | ".join(render(x, "alt", names) for x in n["xs"])
         else:
-            inner = " ".join(render(x, "seq") for x in n["xs"])
-        s = f"({inner})#"
+            inner = " ".join(render(x, "seq", names) for x in n["xs"])
+        s = f"({inner})#" + modifiers({"sep": n.get("sep")})
     else:
         raise ValueError(k)
     return f"({s})" if ctx == "post" else s
 
 
+def names_of(case):
+    """internal rule key -> the name the rule has in the grammar text"""
+    n = case.get("names") or {}
+    return {"Model": "Model", "Sub": n.get("Sub", "Sub"), "Val": n.get("Val", "Val")}
+
+
+def val_rule(case):
+    """The user match rule `Val`: {"kind": "re"} = an identifier-like regex, {"kind": "alt", "alts": [T1, T2]} =
+    an ordered choice of two base types."""
+    return case.get("val") or {"kind": "re"}
+
+
 def grammar_text(case):
     rules = case["rules"]
-    out = [f"Model: {render(normalize(rules['Model']), 'top')} ;"]
+    names = names_of(case)
+    out = [f"Model: {render(normalize(rules['Model']), 'top', names)} ;"]
     if "Sub" in rules:
-        out.append(f"Sub: '@sub' {render(normalize(rules['Sub']), 'seq')} ;")
+        out.append(f"{names['Sub']}: '@sub' {render(normalize(rules['Sub']), 'seq', names)} ;")
+    if any(uses_rhs(b, "Val") for b in rules.values()):
+        v = val_rule(case)
+        body = "/[a-z][a-z0-9]*/" if v["kind"] == "re" else " | ".join(v["alts"])
+        out.append(f"{names['Val']}: {body} ;")
     return "\n".join(out) + "\n"
 
 
@@ -251,11 +320,12 @@ def truthy(cv):
 # generator
 # --------------------------------------------------------------------------
 class G:
-    def __init__(self, rng, attrs, numeric, allow_sub):
+    def __init__(self, rng, attrs, numeric, allow_sub, allow_val=False):
         self.rng = rng
         self.attrs = attrs
         self.numeric = numeric
         self.allow_sub = allow_sub
+        self.allow_val = allow_val
         self.kw = 0
         self.lit = 0
         self.pref = {}
@@ -276,6 +346,8 @@ class G:
             pool = [("NUM", 5), ("STRING", 3), ("BOOL", 2), ("ID", 1), ("LIT", 1)]
             if self.allow_sub:
                 pool.append(("Sub", 2))
+            if self.allow_val:
+                pool.append(("Val", 3))
             self.pref[attr] = rng.weighted(pool)
         t = self.pref[attr] if rng.chance(0.8) else rng.choice(["NUM", "STRING", "BOOL", "ID", "LIT"])
         if t == "NUM":
@@ -302,11 +374,25 @@ class G:
         else:
             rhs = self.vtype(attr)
         a = {"k": "asgn", "a": attr, "op": op, "rhs": rhs}
-        if op in ("*=", "+=") and rng.chance(0.4):
-            a["sep"] = True
-        if rng.chance(0.65):
-            return {"k": "seq", "xs": [self.keyword(), a]}
-        return a
+        tail = None
+        if op in ("*=", "+="):
+            self.modifiers(a, 0.5)
+            if a.get("sep") and rng.chance(0.3):
+                # trailing separator: a keyword with the separator's text after the list (`x+=X[','] ','?`) —
+                # Arpeggio then leaves the separator's node at the end of the list node and matches the text again
+                tail = {"k": "kw", "s": a["sep"]["s"]}
+                if rng.chance(0.6):
+                    tail = {"k": "opt", "x": tail}
+        xs = ([self.keyword()] if rng.chance(0.65) else []) + [a] + ([tail] if tail else [])
+        return {"k": "seq", "xs": xs} if len(xs) > 1 else a
+
+    def modifiers(self, node, p):
+        """repeat modifiers of a repetition / list assignment / unordered group"""
+        rng = self.rng
+        if rng.chance(p):
+            node["sep"] = dict(rng.weighted(SEPS))
+        if node["k"] != "un" and rng.chance(0.08):
+            node["eol"] = rng.choice([True, True, "first"])
 
     def body(self, depth):
         rng = self.rng
@@ -322,12 +408,12 @@ class G:
             node = {"k": k, "xs": [self.body(depth - 1) for _ in range(n)]}
             if k == "un":
                 node["form"] = rng.choice(["seq", "alt"])
+                self.modifiers(node, 0.15)
             return node
         if k == "opt":
             return {"k": "opt", "x": self.body(depth - 1)}
         node = {"k": "rep", "plus": rng.chance(0.4), "x": self.body(depth - 1)}
-        if rng.chance(0.2):
-            node["sep"] = True
+        self.modifiers(node, 0.3)
         return node
 
 
@@ -368,17 +454,22 @@ def has_asgn(n):
     return any(x["k"] == "asgn" for x in walk_nodes(n))
 
 
+def uses_rhs(n, key):
+    return any(x["k"] == "asgn" and x["rhs"] == key for x in walk_nodes(n))
+
+
 def uses_sub(n):
-    return any(x["k"] == "asgn" and x["rhs"] == "Sub" for x in walk_nodes(n))
+    return uses_rhs(n, "Sub")
 
 
 def gen_case(rng):
     numeric = "FLOAT" if rng.chance(0.12) else "INT"
     allow_sub = rng.chance(0.35)
+    allow_val = rng.chance(0.3)
     nattrs = rng.weighted([(1, 2), (2, 5), (3, 3)])
     depth = rng.weighted([(1, 2), (2, 5), (3, 4)])
     for _ in range(20):
-        g = G(rng, ATTRS[:nattrs], numeric, allow_sub)
+        g = G(rng, ATTRS[:nattrs], numeric, allow_sub, allow_val)
         body = g.body(depth)
         if not has_asgn(body):
             body = {"k": "seq", "xs": [body, g.site()]}
@@ -390,7 +481,7 @@ def gen_case(rng):
     if uses_sub(body):
         sdepth = rng.weighted([(1, 4), (2, 4)])
         for _ in range(20):
-            gs = G(rng, SUB_ATTRS[: rng.randint(1, 2)], numeric, False)
+            gs = G(rng, SUB_ATTRS[: rng.randint(1, 2)], numeric, False, allow_val)
             gs.kw, gs.lit = 50, 50
             sb = gs.body(sdepth)
             if not has_asgn(sb):
@@ -401,13 +492,38 @@ def gen_case(rng):
             sb = gs.site()
         rules["Sub"] = sb
     case = {"rules": rules, "auto_init": rng.chance(0.7), "texts": []}
+    names = {}
+    if "Sub" in rules:
+        names["Sub"] = rng.choice(SUB_NAMES)
+    if any(uses_rhs(b, "Val") for b in rules.values()):
+        names["Val"] = rng.choice([x for x in VAL_NAMES if x != names.get("Sub")])
+        num = "FLOAT" if numeric == "FLOAT" else "INT"
+        case["val"] = rng.choice([{"kind": "re"}, {"kind": "re"}, {"kind": "alt", "alts": [num, "ID"]},
+                                  {"kind": "alt", "alts": ["STRING", num]}, {"kind": "alt", "alts": [num, "STRING"]}])
+    if names:
+        case["names"] = names
     case["texts"] = gen_texts(case, rng, 3)
     return case
 
 
-def value_token(rhs, rng, numeric):
+def sep_token(sep, rng, out):
+    """One occurrence of the separator: a separator that can match nothing is left out half of the time."""
+    if sep.get("opt") and rng.chance(0.5):
+        return
+    t = sep["s"]
+    if sep.get("alt") and rng.chance(0.5):
+        t = sep["alt"]
+    out.append(["sep", t])
+
+
+def value_token(rhs, rng, numeric, case=None):
     if rhs.startswith("LIT:"):
         return rhs[4:]
+    if rhs == "Val":
+        v = val_rule(case or {})
+        if v["kind"] == "re":
+            return rng.choice(ID_VALUES)
+        return value_token(rng.choice(v["alts"]), rng, numeric)
     if rhs == "INT":
         return rng.choice(INT_VALUES)
     if rhs == "FLOAT":
@@ -432,7 +548,7 @@ def derive(n, rng, case, out, fuel):
                 out.append(["kw", "@sub"])
                 derive(normalize(case["rules"]["Sub"]), rng, case, out, fuel)
             else:
-                out.append(["val", value_token(n["rhs"], rng, None)])
+                out.append(["val", value_token(n["rhs"], rng, None, case)])
         op = n["op"]
         if op == "=":
             one()
@@ -440,13 +556,16 @@ def derive(n, rng, case, out, fuel):
             if rng.chance(0.6):
                 one()
         else:
-            cnt = rng.weighted([(0, 2), (1, 3), (2, 4), (3, 1)])
+            sep = sep_of(n)
+            cnt = rng.weighted([(0, 2), (1, 3), (2, 4), (3, 1)] if not sep else [(0, 2), (1, 2), (2, 4), (3, 2), (4, 1)])
             if op == "+=":
                 cnt = max(cnt, 1)
             for i in range(cnt):
-                if i and n.get("sep"):
-                    out.append(["sep", ","])
+                if i and sep:
+                    sep_token(sep, rng, out)
                 one()
+            if n.get("eol") and rng.chance(0.75):
+                out.append(["nl", "\n"])
     elif k == "seq":
         for x in n["xs"]:
             derive(x, rng, case, out, fuel)
@@ -461,17 +580,27 @@ def derive(n, rng, case, out, fuel):
             cnt = max(cnt, 1)
         if len(out) > fuel:
             cnt = min(cnt, 1)
+        sep = sep_of(n)
         for i in range(cnt):
-            before = len(out)
-            if i and n.get("sep"):
-                out.append(["sep", ","])
-            derive(n["x"], rng, case, out, fuel)
-            if i and n.get("sep") and len(out) == before + 1:
-                out.pop()  # an empty iteration ends the repetition
-                break
+            it = []
+            derive(n["x"], rng, case, it, max(0, fuel - len(out)))
+            if i and sep:
+                if not it:
+                    break  # an empty iteration ends the repetition
+                sep_token(sep, rng, out)
+            out.extend(it)
+        if n.get("eol") and rng.chance(0.75):
+            out.append(["nl", "\n"])
     elif k == "un":
+        sep = sep_of(n)
+        first = True
         for x in rng.shuffle(n["xs"]):
-            derive(x, rng, case, out, fuel)
+            it = []
+            derive(x, rng, case, it, max(0, fuel - len(out)))
+            if it and sep and not first:
+                sep_token(sep, rng, out)
+            first = first and not it
+            out.extend(it)
     else:
         raise ValueError(k)
 
@@ -486,8 +615,10 @@ def gen_texts(case, rng, n):
         if i == n - 1 and toks and rng.chance(0.5):
             origin = "mutated"
             j = rng.below(len(toks))
-            m = rng.choice(["drop", "dup", "swap", "falsy"])
-            if m == "drop":
+            m = rng.choice(["drop", "dup", "swap", "falsy", "nl"] if has_eol(case) else ["drop", "dup", "swap", "falsy"])
+            if m == "nl":
+                toks = toks[:j] + [["nl", "\n"]] + toks[j:]
+            elif m == "drop":
                 toks = toks[:j] + toks[j + 1:]
             elif m == "dup":
                 toks = toks[: j + 1] + toks[j:]
@@ -502,8 +633,21 @@ def gen_texts(case, rng, n):
     return texts
 
 
+def has_eol(case):
+    return any(n.get("eol") for b in case["rules"].values() for n in walk_nodes(b))
+
+
 def text_of(t):
     return " ".join(x[1] for x in t["tokens"])
+
+
+def token_kinds(t):
+    """offset in `text_of(t)` -> kind of the token that starts there (kw | val | sep | nl)"""
+    out, pos = {}, 0
+    for kind, txt in t["tokens"]:
+        out[pos] = kind
+        pos += len(txt) + 1
+    return out
 
 
 # --------------------------------------------------------------------------
@@ -554,6 +698,10 @@ class Prop(Check):
         "Mult.C02_store",
         "Mult.C02_no_overwrite",
         "Mult.C02_accepts_iff",
+        "Mult.C02_store_raw",
+        "Mult.C02_list_node",
+        "Mult.C02_list_node_nosep",
+        "Mult.C02_sep_by_place_false",
         "Mult.C02_unrepaired_false",
         "Mult.C02_bool_then_plain_rejected",
     ]
@@ -562,22 +710,30 @@ class Prop(Check):
     THOROUGH_CASES = 20000
     PROCS_THOROUGH = 4
     RULE = ("grammar whose rule bodies assign <=3 attributes at <=7 sites under nested sequence / ordered choice / "
-            "optional / repetition (with separators) / unordered group with all four operators and INT, FLOAT, BOOL, "
-            "STRING, ID, string-match and contained-object values, 3 texts each (derived; one in two mutated; falsy "
+            "optional / repetition / unordered group with all four operators and INT, FLOAT, BOOL, STRING, ID, "
+            "string-match, user-match-rule (regex or choice of base types) and contained-object values; repetitions, "
+            "list assignments and unordered groups with repeat modifiers: separator = string or regex match, mandatory "
+            "or able to match nothing (then written or left out at random per occurrence), optionally a trailing "
+            "separator keyword after a list assignment, eolterm (texts with line breaks); user rule names from a pool "
+            "with `sep`, `list`, `eolterm`; 3 texts each (derived; one in two mutated; falsy "
             "values 0, \"\", false favoured); non-trivial = the grammar is accepted, some attribute is assigned at "
             ">=2 sites or below a repetition or with *= / +=, and at least one text is accepted in which some object "
             "gets >=2 values for one attribute or a falsy value")
     MODELLED = ("hand-modelled: lang.py visit_assignment (operator base multiplicities, ?= rejection) and "
                 "_update_attr_multiplicities (Mult.visit / Mult.walk); model.py process_node assignment branch and "
-                "metamodel.py _init_obj_attrs (Mult.store / Mult.initHeap); tie X: op case — multiplicity per "
+                "metamodel.py _init_obj_attrs (Mult.store / Mult.initHeap), the list branch on the raw node with its "
+                "separator children skipped by the identity of the separator match (Mult.storeKids / Mult.storeRaw); "
+                "tie X: op case — multiplicity per "
                 "attribute and grammar rejection vs the metamodel, assignment trace of every object of every real "
-                "parse tree checked for membership in Mult.Events by the verified matcher, Mult.store replay of the "
-                "trace vs the attribute values of the real model object; not exhibited: Arpeggio's parsing itself "
+                "parse tree checked for membership in Mult.Events by the verified matcher, Mult.storeRaw replay of the "
+                "raw trace (list nodes with all children and the parsing expression that made each) vs the attribute "
+                "values of the real model object, the children the model keeps vs the value tokens of the text; not exhibited: Arpeggio's parsing itself "
                 "(traces are taken from its parse trees), references (C08), user classes, object processors")
     ASSUMPTIONS = [
         "attribute defaults are Python-falsy (None, 0, '', False, 0.0) — checked on every unassigned scalar attribute",
         "the assignment trace of an object is what Arpeggio's parse tree shows below the object's node (children with rule name __asgn_*, in order)",
         "Events over-approximates the traces of an unordered group (an element's trace may be inserted anywhere in the trace of the others)",
+        "a child of a list assignment node is a value iff it is a contained object or starts at a value token of the generated text (separator, keyword and value tokens are disjoint by construction); the model instead skips the children made by the repetition's separator match — both are compared on every list node",
         "values are non-reference values (base types, string matches, contained objects); list order of references is C08",
     ]
 
@@ -624,56 +780,79 @@ class Prop(Check):
             obs["grammar"] = {"other": type(e).__name__, "msg": str(e)[:200]}
             return obs
         mults = {}
+        names = names_of(case)
         for rule in case["rules"]:
-            cls = mm[rule]
+            cls = mm[names[rule]]
             mults[rule] = {a: m.mult for a, m in cls._tx_attrs.items()}
         obs["grammar"] = {"ok": mults}
         obs["texts"] = []
-        rule_names = set(case["rules"])
+        # name in the grammar text -> internal key, of the rules that make objects
+        rule_names = {names[r]: r for r in case["rules"]}
+        val_name = names["Val"]
+        kinds = {}   # offset -> token kind of the text being observed
+        rids = {}    # id(parsing expression) -> small number, per text
+
+        def rid(rule):
+            return rids.setdefault(id(rule), len(rids))
 
         def is_obj(v):
             return hasattr(type(v), "_tx_attrs")
 
         def tree_value(n, objs):
             if isinstance(n, Terminal):
+                if n.rule_name == val_name and val_name not in ("INT", "FLOAT", "BOOL", "STRING", "ID"):
+                    return prim(n.value)  # a regex match rule gives the matched text
                 return prim(convert(n.rule_name, n.value))
             if n.rule_name in rule_names:
                 tree_obj(n, objs)
-                return {"obj": n.position, "rule": n.rule_name}
+                return {"obj": n.position, "rule": rule_names[n.rule_name]}
+            if n.rule_name == val_name and len(n) == 1 and isinstance(n[0], Terminal):
+                return prim(convert(n[0].rule_name, n[0].value))  # match rule `T1 | T2`: the base type's value
             return {"p": "tree", "v": n.rule_name}
 
         def raw_tokens(n, acc):
-            """terminals below an assignment node, except separators and the keywords of nested objects"""
+            """value tokens below an assignment node: the terminals that start at a value token of the text
+            (not the separators, and never the keywords of nested objects)"""
             if isinstance(n, Terminal):
-                acc.append(n.value)
+                if kinds.get(n.position) == "val":
+                    acc.append(n.value)
                 return
             if n.rule_name in rule_names:
                 for c in n:
                     if isinstance(c, NonTerminal) and c.rule_name.startswith("__asgn"):
-                        asgn_tokens(c, acc)
+                        raw_tokens(c, acc)
                 return
             for c in n:
                 raw_tokens(c, acc)
 
-        def asgn_tokens(a, acc):
-            for c in a:
-                if c.rule_name != "sep":
-                    raw_tokens(c, acc)
+        def kid_kind(x):
+            """What a child of a list assignment node is, told by the *text*: the generator knows which
+            tokens are values, separators and keywords (independent of rule names and places)."""
+            if isinstance(x, NonTerminal) and x.rule_name in rule_names:
+                return "obj"
+            return kinds.get(x.position, "?")
 
         def tree_obj(node, objs):
-            rec = {"rule": node.rule_name, "pos": node.position, "trace": []}
+            rec = {"rule": rule_names[node.rule_name], "pos": node.position, "trace": []}
             objs.append(rec)
             for c in node:
                 if isinstance(c, NonTerminal) and c.rule_name.startswith("__asgn"):
                     op = {"plain": "=", "optional": "?=", "zeroormore": "*=", "oneormore": "+="}[c.rule_name.split("_")[-1]]
                     attr = c.rule._attr_name
+                    ev = {"a": attr, "op": op}
                     if op == "=":
-                        vs = [tree_value(c[0], objs)]
+                        ev["vs"] = [tree_value(c[0], objs)]
                     elif op == "?=":
-                        vs = [prim(True)]
+                        ev["vs"] = [prim(True)]
                     else:
-                        vs = [tree_value(x, objs) for x in c if x.rule_name != "sep"]
-                    rec["trace"].append({"a": attr, "op": op, "vs": vs})
+                        # the raw node: every child with the parsing expression that made it; `sep` = the
+                        # separator match Arpeggio's repetition was given (None without a separator)
+                        sep_rule = getattr(c.rule, "sep", None)
+                        ev["sep"] = None if sep_rule is None else rid(sep_rule)
+                        ev["kids"] = [{"r": rid(x.rule), "kind": kid_kind(x), "v": tree_value(x, objs)} for x in c]
+                        # the values, by the text: children that are value tokens or contained objects
+                        ev["vs"] = [k["v"] for k in ev["kids"] if k["kind"] in ("val", "obj")]
+                    rec["trace"].append(ev)
                 elif isinstance(c, NonTerminal) and c.rule_name in rule_names:
                     # an object that is matched but assigned nowhere (not generated)
                     tree_obj(c, objs)
@@ -686,14 +865,14 @@ class Prop(Check):
                     return [val(x) for x in v]
                 if is_obj(v):
                     go(v)
-                    return {"obj": getattr(v, "_tx_position", None), "rule": type(v).__name__}
+                    return {"obj": getattr(v, "_tx_position", None), "rule": rule_names.get(type(v).__name__, type(v).__name__)}
                 return prim(v)
 
             def go(o):
                 if id(o) in seen:
                     return
                 seen.add(id(o))
-                rec = {"rule": type(o).__name__, "pos": getattr(o, "_tx_position", None), "attrs": {}}
+                rec = {"rule": rule_names.get(type(o).__name__, type(o).__name__), "pos": getattr(o, "_tx_position", None), "attrs": {}}
                 out.append(rec)
                 for name in type(o)._tx_attrs:
                     rec["attrs"][name] = val(getattr(o, name, None))
@@ -706,6 +885,9 @@ class Prop(Check):
             text = text_of(t)
             tobs = {"text": text}
             obs["texts"].append(tobs)
+            kinds.clear()
+            kinds.update(token_kinds(t))
+            rids.clear()
             # 1. what the parser matched
             try:
                 with watchdog(20):
@@ -779,7 +961,11 @@ class Prop(Check):
             for e in o["trace"]:
                 if e["a"] not in idx:
                     return {"op": "case", "rules": "unknown attribute in parse tree"}
-                trace.append({"a": idx[e["a"]], "op": e["op"], "vs": [{"t": truthy(v), "v": v} for v in e["vs"]]})
+                if "kids" in e:
+                    trace.append({"a": idx[e["a"]], "op": e["op"], "sep": e["sep"],
+                                  "kids": [{"r": k["r"], "t": truthy(k["v"]), "v": k["v"]} for k in e["kids"]]})
+                else:
+                    trace.append({"a": idx[e["a"]], "op": e["op"], "vs": [{"t": truthy(v), "v": v} for v in e["vs"]]})
             req["objs"].append({"rule": ridx[o["rule"]], "trace": trace})
         return req
 
@@ -818,6 +1004,11 @@ class Prop(Check):
                 continue
             mine = [(o, mo) for (tj, o), mo in zip(tobjs, out["objs"]) if tj == ti]
             for o, mo in mine:
+                # the children the model keeps (not made by the separator match) are the value tokens of the text
+                byvals = [e["vs"] for e in o["trace"] if e["op"] in ("*=", "+=")]
+                if mo.get("lists") != byvals:
+                    return (f"text {ti}: list assignment nodes of {o['rule']}@{o['pos']}: the children not made by the "
+                            f"separator match are {mo.get('lists')} but the value tokens of the text are {byvals}")
                 if not mo["accepts"]:
                     return f"text {ti}: assignment trace of {o['rule']}@{o['pos']} is not in Events of the rule body: {o['trace']}"
             predicted_err = [mo["store"]["err"] for _, mo in mine if "err" in mo["store"]]
@@ -946,7 +1137,10 @@ class Prop(Check):
     def extra_evidence(self, cases, obs, outs):
         d = {"grammars_accepted": 0, "grammars_rejected": 0, "texts": 0, "texts_accepted": 0, "texts_mutated": 0,
              "objects_checked": 0, "events": 0, "falsy_values": 0, "list_attrs": 0, "scalar_attrs": 0,
-             "attrs_with_2plus_values_in_some_text": 0, "watchdog": 0}
+             "attrs_with_2plus_values_in_some_text": 0, "watchdog": 0,
+             "list_nodes": 0, "list_nodes_with_separator": 0, "list_nodes_not_alternating": 0,
+             "list_nodes_trailing_separator": 0, "grammars_with_rule_named_sep": 0, "grammars_with_eolterm": 0,
+             "grammars_with_nullable_separator": 0}
         d["exact_multiplicity_agreement"] = [0, 0]
         for c, o, mo in zip(cases, obs, outs):
             if isinstance(o, dict) and "ok" in o.get("grammar", {}) and isinstance(mo, dict) and "rules" in mo:
@@ -960,6 +1154,11 @@ class Prop(Check):
             d["watchdog"] += o["grammar"].get("other") == "Watchdog"
             if "ok" in o["grammar"]:
                 d["grammars_accepted"] += 1
+                used = [v for k_, v in names_of(c).items() if k_ in c["rules"] or any(uses_rhs(b, k_) for b in c["rules"].values())]
+                d["grammars_with_rule_named_sep"] += "sep" in used
+                d["grammars_with_eolterm"] += has_eol(c)
+                d["grammars_with_nullable_separator"] += any(
+                    (sep_of(n) or {}).get("opt") for b in c["rules"].values() for n in walk_nodes(b))
                 for r, ms in o["grammar"]["ok"].items():
                     for a, m in ms.items():
                         d["list_attrs" if m in MANY else "scalar_attrs"] += 1
@@ -978,6 +1177,13 @@ class Prop(Check):
                         for e in ob["trace"]:
                             d["events"] += 1
                             per.setdefault(e["a"], []).extend(e["vs"])
+                            if "kids" in e:
+                                ks = [k["kind"] in ("val", "obj") for k in e["kids"]]
+                                d["list_nodes"] += 1
+                                d["list_nodes_with_separator"] += e["sep"] is not None
+                                if e["sep"] is not None and len(ks) > 1:
+                                    d["list_nodes_not_alternating"] += ks != [i % 2 == 0 for i in range(len(ks))] or not ks[-1]
+                                    d["list_nodes_trailing_separator"] += not ks[-1]
                             d["falsy_values"] += sum(1 for v in e["vs"] if not truthy(v))
                         d["attrs_with_2plus_values_in_some_text"] += sum(1 for vs in per.values() if len(vs) >= 2)
         return {"distribution": d}
@@ -1005,9 +1211,16 @@ class Prop(Check):
                 if uses_sub(rules["Model"]) and "Sub" not in rules:
                     continue
                 c = {"rules": rules, "auto_init": case.get("auto_init", True), "texts": []}
+                for key in ("names", "val"):
+                    if key in case:
+                        c[key] = case[key]
                 c["texts"] = gen_texts(c, rng.fork("t"), 4)
                 c["texts"] += [dict(t, origin="kept") for t in texts[:2]]
                 yield c
+        # plain rule names, the simplest user match rule
+        for key in ("names", "val"):
+            if key in case:
+                yield {k_: v for k_, v in case.items() if k_ != key}
         # shorter texts
         if len(texts) == 1:
             toks = texts[0]["tokens"]
@@ -1030,9 +1243,17 @@ def shrink_body(n):
     elif k in ("opt", "rep"):
         for s in shrink_body(n["x"]):
             yield dict(n, x=s)
-    elif k == "asgn":
+    if k in ("asgn", "rep", "un"):
         if n.get("sep"):
             yield {kk: v for kk, v in n.items() if kk != "sep"}
+            if n["sep"] is not True and n["sep"] != {"s": ","}:
+                sep = n["sep"]
+                yield dict(n, sep={"s": ","})
+                if sep.get("alt"):
+                    yield dict(n, sep={kk: v for kk, v in sep.items() if kk != "alt"})
+        if n.get("eol"):
+            yield {kk: v for kk, v in n.items() if kk != "eol"}
+    if k == "asgn":
         if n["rhs"] != "INT" and n["op"] != "?=":
             yield dict(n, rhs="INT")
 
